@@ -924,6 +924,15 @@ impl<const N: usize> SubscriptionsInner<N> {
 
     /// Remove entries that every subscription has already reported on.
     fn purge_reported_changes(&mut self) {
+        // A subscription that is being primed or reported on lives in its
+        // `ReportContext`, not in `subscriptions`, so its watermark is not part of
+        // the minimum below (and an otherwise empty table would be cleared). Changes
+        // recorded meanwhile are still unreported for it: do not purge until it is
+        // back in the table (or gone). `subscriptions_count` includes those.
+        if self.subscriptions_count != self.subscriptions.len() {
+            return;
+        }
+
         if let Some(min_seen_attr_change_id) = self
             .subscriptions
             .iter()
@@ -3599,6 +3608,85 @@ mod tests {
             assert!(!rctx.should_report_attr(1, 2, 3));
             rctx.set_keep();
         }
+    }
+
+    #[test]
+    fn purge_keeps_changes_recorded_while_a_subscription_is_priming() {
+        // A subscription that is being primed lives in its `ReportContext`, not in
+        // the table. A change recorded after the priming report has read the
+        // attribute must survive a purge by the reporter task that runs before the
+        // priming completes; otherwise the subscriber is left with the stale value.
+        let subs: Subscriptions<2> = Subscriptions::new();
+        let pool = TestPool::<3>::new();
+        let subs_bufs: SubscriptionsBuffers<TestPool<3>, 2> = SubscriptionsBuffers::new();
+
+        let base = Instant::now();
+
+        // Priming starts and reads (1, 2, 3) ...
+        let mut priming = add_sub(&subs, &subs_bufs, &pool, base, 1, 100, 1, 60);
+        assert!(priming.should_report_attr(1, 2, 3));
+
+        // ... then the attribute changes, which wakes the reporter task: nothing
+        // is reportable (the table is empty), and it purges.
+        subs.notify_attr_changed(1, 2, 3);
+        assert!(subs.report(base, 0, &subs_bufs).is_none());
+        subs.purge_reported_changes();
+
+        // The priming completes.
+        priming.set_keep();
+        drop(priming);
+
+        // The change is still pending for the now-established subscription.
+        let later = base + Duration::from_secs(2);
+        let mut rctx = subs
+            .report(later, 0, &subs_bufs)
+            .expect("the change recorded during priming was lost");
+        assert!(rctx.should_report_attr(1, 2, 3));
+        rctx.set_keep();
+    }
+
+    #[test]
+    fn purge_keeps_changes_recorded_while_priming_next_to_a_caught_up_subscription() {
+        // Same as above, but with another subscription in the table that has
+        // already reported the change: the minimum watermark over the table alone
+        // would purge it.
+        let subs: Subscriptions<2> = Subscriptions::new();
+        let pool = TestPool::<3>::new();
+        let subs_bufs: SubscriptionsBuffers<TestPool<3>, 2> = SubscriptionsBuffers::new();
+
+        let base = Instant::now();
+        {
+            let mut r1 = add_sub(&subs, &subs_bufs, &pool, base, 1, 100, 1, 60);
+            r1.set_keep();
+        }
+
+        let later = base + Duration::from_secs(2);
+
+        let mut priming = add_sub(&subs, &subs_bufs, &pool, later, 1, 101, 1, 60);
+        assert!(priming.should_report_attr(1, 2, 3));
+
+        subs.notify_attr_changed(1, 2, 3);
+
+        // The reporter reports the change to the first subscription and purges.
+        {
+            let mut rctx = subs.report(later, 0, &subs_bufs).unwrap();
+            assert_eq!(rctx.subscription().ids().peer_node_id, 100);
+            assert!(rctx.should_report_attr(1, 2, 3));
+            rctx.set_keep();
+        }
+        assert!(subs.report(later, 0, &subs_bufs).is_none());
+        subs.purge_reported_changes();
+
+        priming.set_keep();
+        drop(priming);
+
+        let even_later = later + Duration::from_secs(2);
+        let mut rctx = subs
+            .report(even_later, 0, &subs_bufs)
+            .expect("the change recorded during priming was lost");
+        assert_eq!(rctx.subscription().ids().peer_node_id, 101);
+        assert!(rctx.should_report_attr(1, 2, 3));
+        rctx.set_keep();
     }
 
     #[test]
